@@ -133,8 +133,9 @@ def sym_add(l: Any, r: Any, sign: int = 1) -> Any:
 
 
 class LocalFn:
-    def __init__(self, node, env, owner):
+    def __init__(self, node, env, owner, defaults=None):
         self.node, self.env, self.owner = node, env, owner
+        self.defaults = defaults   # parameter defaults evaluated when the function / lambda was created (Python semantics)
 
 
 @dataclass
@@ -361,7 +362,7 @@ class Interp:
             self.block(st.orelse, env, depth)
             self.block(st.finalbody, env, depth)
         elif isinstance(st, (ast.FunctionDef, ast.AsyncFunctionDef)):
-            env[st.name] = LocalFn(st, env, self.fn_stack[-1])
+            env[st.name] = LocalFn(st, env, self.fn_stack[-1], self._defaults(st, env, depth))
         # imports, pass, global: no effect
 
     def assign(self, t: ast.AST, val: Any, env: dict, node: ast.AST) -> None:
@@ -591,8 +592,22 @@ class Interp:
             return UNKNOWN
         if isinstance(e, ast.Call):
             return self.call(e, env, depth)
+        if isinstance(e, ast.JoinedStr):
+            parts = []
+            for v in e.values:
+                if isinstance(v, ast.Constant):
+                    parts.append(str(v.value))
+                elif isinstance(v, ast.FormattedValue) and v.format_spec is None and v.conversion == -1:
+                    x = self.ev(v.value, env, depth)
+                    if isinstance(x, (str, int)) and not isinstance(x, bool):
+                        parts.append(str(x))
+                    else:
+                        return UNKNOWN
+                else:
+                    return UNKNOWN
+            return "".join(parts)
         if isinstance(e, ast.Lambda):
-            return LocalFn(e, env, self.fn_stack[-1] if self.fn_stack else None)
+            return LocalFn(e, env, self.fn_stack[-1] if self.fn_stack else None, self._defaults(e, env, depth))
         return UNKNOWN
 
     def comp(self, e: ast.AST, env: dict, depth: int) -> Any:
@@ -690,6 +705,10 @@ class Interp:
                 return list(args[0]) if len(args[0]) <= 1 else UNKNOWN
             if nm in ("list", "tuple", "iter") and len(args) >= 1 and isinstance(args[0], list):
                 return list(args[0])
+            if nm in ("list", "tuple", "iter", "sorted") and len(args) == 1 and isinstance(args[0], dict) and not kwargs:
+                return list(args[0].keys())
+            if nm in ("list", "tuple") and len(args) == 1 and isinstance(args[0], set):
+                return sorted(args[0], key=repr)
             if nm == "bool" and len(args) == 1:
                 return self.truthy(args[0])
             if nm in ("max", "min", "sorted") and len(args) == 1 and isinstance(args[0], list) and kwargs.get("key") is not None:
@@ -736,6 +755,12 @@ class Interp:
                 return UNKNOWN
             if nm == "id" and len(args) == 1 and isinstance(args[0], Sym):
                 return "id:" + args[0].tag
+            if nm == "accumulate" and len(args) == 1 and isinstance(args[0], list) and all(_is_num(x) for x in args[0]):
+                acc_, res_ = 0, []
+                for x in args[0]:
+                    acc_ = acc_ + x
+                    res_.append(acc_)
+                return res_
             if nm == "deque" and len(args) <= 1:
                 return list(args[0]) if args and isinstance(args[0], list) else [] if not args else UNKNOWN
             if nm in ("list", "tuple") and not args and not kwargs:
@@ -906,6 +931,11 @@ class Interp:
             if isinstance(base, set) and nm == "add" and args:
                 base.add(self._hashable(args[0]))
                 return None
+            if isinstance(base, dict) and nm == "update" and len(args) == 1 and isinstance(args[0], dict):
+                base.update(args[0])
+                return None
+            if isinstance(base, dict) and nm == "pop" and args:
+                return base.pop(self._hashable(args[0]), args[1] if len(args) > 1 else UNKNOWN)
         if isinstance(c.func, ast.Attribute) and nm == "copy":
             v = self.ev(c.func.value, env, depth)
             if isinstance(v, list):
@@ -933,9 +963,11 @@ def _install():
                     if k.startswith("self."):
                         cenv[k] = v
             for p_, d in zip(params[len(params) - len(a.defaults):], a.defaults):
-                cenv[p_] = self.ev(d, f.env, depth)
+                cenv[p_] = f.defaults[p_] if f.defaults is not None and p_ in f.defaults else self.ev(d, f.env, depth)
             for p_, v in zip(params, args):
                 cenv[p_] = v
+            for k, v in kwargs.items():
+                cenv[k] = v
             return self.ev(node.body, cenv, depth + 1)
         a = node.args
         params = [x.arg for x in a.posonlyargs + a.args]
@@ -947,7 +979,7 @@ def _install():
                     cenv[k] = v
         defaults = dict(zip(params[len(params) - len(a.defaults):], a.defaults))
         for p_, d in defaults.items():
-            cenv[p_] = self.ev(d, f.env, depth)
+            cenv[p_] = f.defaults[p_] if f.defaults is not None and p_ in f.defaults else self.ev(d, f.env, depth)
         for p_, v in zip(params, args):
             cenv[p_] = v
         for k, v in kwargs.items():
@@ -970,8 +1002,20 @@ def _install():
             return tuple(self._hashable(x) for x in v)
         return v if isinstance(v, (str, int, float, bool, tuple, type(None))) else repr(v)
 
+    def _defaults(self, node, env, depth):
+        a = node.args
+        params = [x.arg for x in a.posonlyargs + a.args]
+        out = {}
+        for p_, d in zip(params[len(params) - len(a.defaults):], a.defaults):
+            out[p_] = self.ev(d, env, depth)
+        for k_, d in zip(a.kwonlyargs, a.kw_defaults):
+            if d is not None:
+                out[k_.arg] = self.ev(d, env, depth)
+        return out
+
     Interp.call_local = call_local
     Interp.apply = apply
+    Interp._defaults = _defaults
     Interp._hashable = _hashable
     Interp.sym_result = None
     Interp.on_start = None
